@@ -3,7 +3,7 @@ from fractions import Fraction as F
 
 from harness import core, fr
 from harness.props import alloc_common as ac
-from harness.props.alloc_common import HEADER, run_impl, to_coq, shrink
+from harness.props.alloc_common import HEADER, HEADER_H, run_impl, to_coq, shrink
 
 ASSUMPTIONS = [
     "tolerances set explicitly (Rectangle.set_epsilon) and passed to the model as parameters; the sliver ratio is the exact value of the float 0.01",
@@ -30,7 +30,111 @@ def halvings(w, h, levels):
     return shapes
 
 
+def step_exact(o, before, after, eps):
+    """The exactness clauses of C12 for ONE refinement call (before: cells and flags when the call was made)."""
+    if o[0] == "refine":
+        # the pieces of a cell are found by geometry: the position of a cell in the list is not part of the property
+        t, levels = o[1], o[2]
+        total = 0
+        for p in before:
+            pb = ac.cbox(p)
+            kids = [c for c in after if ac.ovl(pb, ac.cbox(c)) > 0]
+            total += len(kids)
+            if ac.splittable(p, t):
+                if len(kids) != 2 ** levels:
+                    return "refine: a cell that must be split did not become 2^levels cells"
+                shapes = halvings(core.frac(p["rect"]["w"]), core.frac(p["rect"]["h"]), levels)
+                for c in kids:
+                    b = ac.cbox(c)
+                    if not (b[0] >= pb[0] and b[1] >= pb[1] and b[2] <= pb[2] and b[3] <= pb[3]):
+                        return "refine: a piece is not inside the cell it was cut from"
+                    if (core.frac(c["rect"]["w"]), core.frac(c["rect"]["h"])) not in shapes:
+                        return "refine: pieces are not obtained by repeatedly halving the longer side"
+                    if ac.carea(c) * 2 ** levels != ac.carea(p):
+                        return "refine: the 2^levels cells are not equal parts of the original"
+                    if c["depth"] != p["depth"] + levels:
+                        return "refine: depth not raised by the number of levels"
+                if sum(ac.carea(c) for c in kids) != ac.carea(p):
+                    return "refine: the 2^levels cells are not equal parts of the original"
+            else:
+                if len(kids) != 1 or ac.canon_cell(kids[0]) != ac.canon_cell(p):
+                    return "refine: a cell that must not be split was changed"
+        if total != len(after):
+            return "refine: unexpected extra cells"
+    elif o[0] == "uniform":
+        md = max(c["depth"] for c in before)
+        for c in after:
+            if not c["rect"]["fixed"] and c["depth"] != md:
+                return "uniform refinement: a refinable cell does not end at the former maximum depth"
+        if len({c["depth"] for c in before}) == 1 and not ac.same_cells(after, before):
+            return "uniform refinement changed an allocation that already had uniform depth"
+    else:
+        xs = sorted({v for c in before for v in (ac.cbox(c)[0], ac.cbox(c)[2])})
+        ys = sorted({v for c in before for v in (ac.cbox(c)[1], ac.cbox(c)[3])})
+        q = core.frac(ac.RATIO_F)
+        for f in after:
+            if f["rect"]["fixed"]:
+                continue
+            fb = ac.cbox(f)
+            parents = [p for p in before if ac.ovl(ac.cbox(p), fb) > 0]
+            if len(parents) != 1:
+                continue        # judged by C02
+            P = ac.cbox(parents[0])
+            for x in xs[1:-1]:
+                if fb[0] + eps < x < fb[2] - eps:
+                    if min(x - fb[0], P[2] - x) > q * (P[3] - P[1]):
+                        return f"griddify: boundary x={x} of another cell still crosses a refinable cell although cutting there would not have left a sliver"
+            for y in ys[1:-1]:
+                if fb[1] + eps < y < fb[3] - eps:
+                    if min(y - fb[1], P[3] - y) > q * (fb[2] - fb[0]):
+                        return f"griddify: boundary y={y} of another cell still crosses a refinable cell although cutting there would not have left a sliver"
+    return None
+
+
+def oracle_hist(case, obs):
+    """Histories on shared objects.  Between two in-place flag changes an allocation object is one allocation: every
+    must_be_refined(t) asked of it and every refine(t, .) applied to it in that interval must tell the same story
+    (True iff refining changes it), whatever else was asked of the object before; each refinement call is exact for
+    the cells and flags the allocation had when the call was made."""
+    if obs["init"] is None:
+        return None
+    epoch = 0
+    said = {}          # (allocation, threshold, epoch) -> ("mbr" | "refine", answer, step)
+    for n, (h, st) in enumerate(zip(case["hops"], obs["steps"])):
+        if h[0] == "setfixed":
+            epoch += 1
+            continue
+        if h[0] == "mbr":
+            key, what, ans = (st["k"], core.frac(h[2]), epoch), "mbr", st["val"]
+        elif h[0] == "apply":
+            o = h[2]
+            if st["new"] is None:
+                if o[0] == "refine" and o[2] == 0:
+                    continue
+                return f"{o[0]} failed ({st.get('err')}) on a valid allocation (step {n} of a history)"
+            why = step_exact(o, st["src"], st["new"], case["eps"])
+            if why:
+                return f"{why} (step {n} of a history on shared objects)"
+            if o[0] != "refine":
+                continue
+            key, what, ans = (st["k"], core.frac(o[1]), epoch), "refine", not ac.same_cells(st["new"], st["src"])
+        else:
+            continue
+        for w0, a0, n0 in said.get(key, []):
+            if a0 != ans and (w0, what) != ("refine", "refine"):
+                m, r = (a0, ans) if w0 == "mbr" else (ans, a0)
+                if w0 == what == "mbr":
+                    return (f"must_be_refined({key[1]}) = {a0} at step {n0} and {ans} at step {n} on the same allocation "
+                            f"with no change in between")
+                return (f"must_be_refined({key[1]}) = {m} but refining at that threshold "
+                        f"{'changes' if r else 'does not change'} the allocation (steps {n0} and {n} of a history)")
+        said.setdefault(key, []).append((what, ans, n))
+    return None
+
+
 def oracle(case, obs):
+    if ac.is_hist(case):
+        return oracle_hist(case, obs)
     if obs["init"] is None:
         return None
     if case.get("stream") == "decimal":
@@ -45,7 +149,6 @@ def oracle(case, obs):
             if st["after"] is None:
                 return f"{o[0]} failed ({st.get('err')}) on a valid allocation with decimal coordinates"
         return None
-    cells0 = obs["init"]["cells"]
     for t, m, ch in zip(case["ths"], obs["mbr"], obs["refine_changes"]):
         if isinstance(ch, str):
             return f"refine({t}) failed ({ch}) on a valid allocation"
@@ -58,90 +161,40 @@ def oracle(case, obs):
             if o[0] == "refine" and o[2] == 0:
                 return None
             return f"{o[0]} failed ({st.get('err')}) on a valid allocation"
-        after = after["cells"]
-        if o[0] == "refine":
-            t, levels = o[1], o[2]
-            pos = 0
-            for p in before:
-                if ac.splittable(p, t):
-                    kids = after[pos:pos + 2 ** levels]
-                    pos += 2 ** levels
-                    pb = ac.cbox(p)
-                    if len(kids) != 2 ** levels:
-                        return "refine: a cell that must be split did not become 2^levels cells"
-                    shapes = halvings(core.frac(p["rect"]["w"]), core.frac(p["rect"]["h"]), levels)
-                    for c in kids:
-                        b = ac.cbox(c)
-                        if not (b[0] >= pb[0] and b[1] >= pb[1] and b[2] <= pb[2] and b[3] <= pb[3]):
-                            return "refine: cells are not emitted in place of the cell they were cut from"
-                        if (core.frac(c["rect"]["w"]), core.frac(c["rect"]["h"])) not in shapes:
-                            return "refine: pieces are not obtained by repeatedly halving the longer side"
-                        if c["depth"] != p["depth"] + levels:
-                            return "refine: depth not raised by the number of levels"
-                    if sum(ac.carea(c) for c in kids) != ac.carea(p):
-                        return "refine: the 2^levels cells are not equal parts of the original"
-                else:
-                    if pos >= len(after) or after[pos] != p:
-                        return "refine: a cell that must not be split was changed"
-                    pos += 1
-            if pos != len(after):
-                return "refine: unexpected extra cells"
-        elif o[0] == "uniform":
-            md = max(c["depth"] for c in before)
-            for c in after:
-                if not c["rect"]["fixed"] and c["depth"] != md:
-                    return "uniform refinement: a refinable cell does not end at the former maximum depth"
-            if len({c["depth"] for c in before}) == 1 and after != before:
-                return "uniform refinement changed an allocation that already had uniform depth"
-        else:
-            eps = case["eps"]
-            xs = sorted({v for c in before for v in (ac.cbox(c)[0], ac.cbox(c)[2])})
-            ys = sorted({v for c in before for v in (ac.cbox(c)[1], ac.cbox(c)[3])})
-            q = core.frac(ac.RATIO_F)
-            for f in after:
-                if f["rect"]["fixed"]:
-                    continue
-                fb = ac.cbox(f)
-                parents = [p for p in before if ac.ovl(ac.cbox(p), fb) > 0]
-                if len(parents) != 1:
-                    continue        # judged by C02
-                P = ac.cbox(parents[0])
-                for x in xs[1:-1]:
-                    if fb[0] + eps < x < fb[2] - eps:
-                        if min(x - fb[0], P[2] - x) > q * (P[3] - P[1]):
-                            return f"griddify: boundary x={x} of another cell still crosses a refinable cell although cutting there would not have left a sliver"
-                for y in ys[1:-1]:
-                    if fb[1] + eps < y < fb[3] - eps:
-                        if min(y - fb[1], P[3] - y) > q * (fb[2] - fb[0]):
-                            return f"griddify: boundary y={y} of another cell still crosses a refinable cell although cutting there would not have left a sliver"
-        if "mbr_after" in st:
-            pass
+        why = step_exact(o, before, after["cells"], case["eps"])
+        if why:
+            return why
     return None
 
 
 def failure_key(case, why):
     w = why or ""
+    h = "history-" if ac.is_hist(case) else ""
     if w.startswith("must_be_refined"):
-        return "C12/must-be-refined-vs-refine"
+        return f"C12/{h}must-be-refined-vs-refine"
     if w.startswith("griddify"):
-        return "C12/griddify"
-    return "C12/refine"
+        return f"C12/{h}griddify"
+    return f"C12/{h}refine"
 
 
 def run(ctx, out, replay=None):
-    n = 700 if ctx.quick() else 7000
-    out.rule = ("same generator as C02 (guillotine / sparse / grid / sliver layouts; empty, single, multi, full, fixed maps; "
-                "depths 0-3; layouts with different numbers of x- and y-boundaries); must_be_refined probed at 5 thresholds "
-                "before and after every operation; non-trivial = at least two cells; distinct by hash")
+    n = 520 if ctx.quick() else 5000
+    out.rule = ("same generators as C02: (a) chains on fresh objects (guillotine / sparse / grid / sliver layouts; empty, "
+                "single, multi, full, fixed maps; depths 0-3; layouts with different numbers of x- and y-boundaries), "
+                "must_be_refined probed at 5 thresholds before and after every operation; (b) histories on shared objects: "
+                "must_be_refined / refine / uniform / griddify / queries called repeatedly on any allocation built so far, with "
+                "other thresholds and levels, interleaved with rect.fixed set in place (also through a derived allocation "
+                "sharing the cell); non-trivial = at least two cells; distinct by hash")
     cases = []
     if replay and "case" in replay:
         cases.append(fr.unjson(replay["case"]))
     cases += fr.load_corpus("C12")
     import random
+    from harness.props import c02
     rng = random.Random(f"C12x-{ctx.seed}")
-    while len(cases) < n:
-        cases.append(ac.gen_case(rng))
-    fr.run_cases(ctx, out, cases, run_impl, to_coq, oracle, failure_key, HEADER,
-                 dist_key=ac.dist_key, nontrivial=ac.nontrivial, shard=150, shrink=shrink)
-    nx_ne_ny = 0
+    cases += c02.gen_cases(rng, max(n - len(cases), 0), ctx.quick())
+    fr.run_cases(ctx, out, cases, ac.run_any, ac.any_to_coq, oracle, failure_key, HEADER_H,
+                 dist_key=ac.any_dist_key, nontrivial=ac.nontrivial, shard=75, shrink=ac.any_shrink)
+    out.extra["history_cases"] = sum(1 for c in cases if ac.is_hist(c))
+    out.extra["variants"] = ac.variant_counts(cases)
     out.extra["note"] = "distribution keys are layout-kind/operation-sequence"
